@@ -88,6 +88,20 @@ func c15R1(c *Ctx, rule string) {
 		engine.Event("reap", c.P.IsCallTo(engine.Is("(*FileSnapshotStore).ReapSnapshots"))),
 		predErr("reapErr", "recv.store.ReapSnapshots("),
 	}
+	// an error variable that is returned may have been re-used for a second
+	// call: `if err = cleanup(); err != nil {log}; return err` returns nil when
+	// the cleanup worked. Every returned error value gets a track; a return
+	// reached with that value established nil is a nil return.
+	retTrack := map[string]string{}
+	for _, ret := range engine.ReturnsOf(fn) {
+		d := c.P.D(engine.ReturnValues(ret)[0])
+		if d == "nil" || retTrack[d] != "" {
+			continue
+		}
+		name := fmt.Sprintf("ret%d", len(retTrack))
+		retTrack[d] = name
+		tracks = append(tracks, engine.PredRel(name, d, "nil", engine.LT|engine.GT))
+	}
 	r := c.Run(&engine.Automaton{Fn: fn, Tracks: tracks})
 	written := func(v engine.View) bool {
 		return v.F("closed") && v.Seen("mark") && v.Seen("finalize") && v.F("finErr") && v.Seen("meta") && v.F("metaErr")
@@ -125,7 +139,10 @@ func c15R1(c *Ctx, rule string) {
 			})
 			continue
 		}
-		c.RequireAt(r, rule, fmt.Sprintf("Close:return-err#%d", i+1), ret, "a failed finalize removes the temporary directory before the error is returned", func(v engine.View) bool {
+		c.RequireAt(r, rule, fmt.Sprintf("Close:return-err#%d", i+1), ret, "a failed finalize removes the temporary directory before the error is returned; a returned error value that the path established to be nil counts as a nil return (complete success only)", func(v engine.View) bool {
+			if v.F(retTrack[d]) && !(v.T("closed") || (synced(v) && v.Seen("reap") && v.F("reapErr"))) {
+				return false
+			}
 			if v.T("finErr") {
 				return v.Seen("cleanup")
 			}
